@@ -1,0 +1,5 @@
+//go:build !verif
+
+package modeling
+
+func verifYield(site string) {}
